@@ -52,6 +52,9 @@ def shapes():
   mk('alias_of_explicit', [R('Stage', x, Bin('*', x, N(2)), body=(Lit('B', x),)), R('Save', Aggr('Count', x), body=(Lit('Stage', x, y),), distinct=True), R('T', x, y, body=(Lit('Snap', x, y),)),
                            R('U', Aggr('Sum', y), body=(Lit('View', x, y),), distinct=True)], ['Stage'], ['Save', 'T', 'U'], {'Stage': 'logica_home.stage_current'}, alias_of={'Snap': 'Stage', 'View': 'Snap'})
   mk('alias_of_default', [R('Stage', x, body=(Lit('B', x),)), R('Save', Aggr('Count', x), body=(Lit('Stage', x),), distinct=True), R('T', x, body=(Lit('Snap', x), Cmp('>', x, N(1))))], ['Stage'], ['Save', 'T'], alias_of={'Snap': 'Stage'})
+  # a grounded predicate holding a Set of strings (the table must be the same whichever process writes it)
+  mk('set_of_strings', [R('W', lang.S('pear')), R('W', lang.S('apple')), R('W', lang.S('fig')), R('W', lang.S('kiwi')), R('W', lang.S('lime')), R('W', lang.S('apple')),
+                        R('P', x, named={'s': Aggr('Set', y)}, body=(Lit('B', x), Lit('W', y)), distinct=True), R('T', x, body=(Lit('P', x, s=y),))], ['P'], ['T'])
   # an explicit @Dataset naming a second attached database: default-named grounded tables live there, not in logica_home
   mk('dataset_archive', [R('P', x, body=(Lit('B', x), Cmp('>', x, N(1)))), R('Q', Bin('+', x, N(10)), body=(Lit('P', x),)), R('T', x, y, body=(Lit('P', x), Lit('Q', y)))], ['P', 'Q'], ['P', 'Q', 'T'], dataset='archive')
   return S
@@ -328,18 +331,55 @@ def explore_machine(shape_name, init, depth, alias='logica_home'):
   return dict(stats=stats, viol=out, samples=samples)
 
 
+def child_main(argv):
+  """one run of one predicate in THIS process (started with its own PYTHONHASHSEED); prints the output and the dump as JSON"""
+  shape_name, workdir, op = argv
+  impl.setup(os.environ.get('VERIF_REPO', '/repo'))
+  m = Machine(shape_name, 'empty', workdir)
+  _, out = m.apply('A', op)
+  print('\n@@' + json.dumps([out[:3] if out else None, dump(m.home)]))
+
+
+def explore_processes(shape_name):
+  """the same run repeated by fresh processes with different hash seeds: output and table contents must not change"""
+  import subprocess, sys
+  workdir = tempfile.mkdtemp(prefix='verif_c17p_'); viol = []; stats = dict(transitions=0, comparisons=0, replays=0, states=0)
+  try:
+    m = Machine(shape_name, 'empty', workdir); m.reset()
+    seen = []
+    for op in m.shape['preds']:
+      for seed in ('1', '2', '3', '1'):
+        env = dict(os.environ, PYTHONHASHSEED=seed)
+        r = subprocess.run([sys.executable, '-m', 'mc.checks.c17', shape_name, workdir, op], cwd=os.path.dirname(os.path.dirname(os.path.dirname(os.path.abspath(__file__)))), env=env, capture_output=True, text=True)
+        stats['transitions'] += 1; stats['replays'] += 1
+        line = [l for l in r.stdout.split('\n') if l.startswith('@@')]
+        if not line:
+          viol.append(dict(sig='child-failed/%s' % shape_name, what=r.stderr[-300:], case=dict(shape=shape_name, init='procs', alias='logica_home', history=[op]))); break
+        got = line[-1][2:]
+        seen.append((op, seed, got)); stats['comparisons'] += 1
+        if got != seen[[o for o, _, _ in seen].index(op)][2]:
+          first = seen[[o for o, _, _ in seen].index(op)]
+          viol.append(dict(sig='rerun-in-a-new-process-differs/%s' % shape_name, what='run(%s) under PYTHONHASHSEED=%s gives %s, under %s it gave %s' % (op, seed, got[:300], first[1], first[2][:300]),
+                           case=dict(shape=shape_name, init='procs', alias='logica_home', history=[op]))); break
+    stats['states'] = len({g for _, _, g in seen})
+  finally:
+    shutil.rmtree(workdir, ignore_errors=True)
+  return dict(stats=stats, viol=viol, samples=[])
+
+
 def plan(ctx):
   depth = 4 if ctx.thorough else 3
-  names = list(shapes())
+  names = [n for n in shapes() if n != 'set_of_strings']       # that shape only takes part in the cross-process runs (the model does not print sets)
   tasks = [('m', n, init, depth, 'logica_home') for n in names for init in ('empty', 'stale')]
   # the persistent file attached under the default dataset alias itself
   tasks += [('m', n, 'empty', depth, 'logica_test') for n in names if not shapes()[n]['explicit']][:6]
+  tasks += [('procs', n, 'procs', 1, 'logica_home') for n in ('set_of_strings', 'string_values', 'aggregating', 'chain')]
   return tasks
 
 
 def work(task):
   _, name, init, depth, alias = task
-  r = explore_machine(name, init, depth, alias)
+  r = explore_processes(name) if task[0] == 'procs' else explore_machine(name, init, depth, alias)
   r['keys'] = dict(outcomes={(name, init, alias, i) for i in range(r['stats']['states'])})
   return r
 
@@ -365,3 +405,8 @@ LEVEL_TEXT = ('Explicit-state BFS (depth 3, thorough 4) over all sequences of ru
               'shaped tables; every step executed by the real RunSqlScript against one persistent SQLite file and compared with a reference model: printed rows, contents of every table, '
               'no write when the grounded predicate itself is requested, idempotence of repeated runs, dependants reading the table.')
 LEVEL_NOTE = 'Trusted: reference evaluator; the model rule "run(X) rewrites exactly the grounded predicates X depends on". Bounded: 12 shapes, 2 versions, depth <=4.'
+
+
+if __name__ == '__main__':
+  import sys as _sys
+  child_main(_sys.argv[1:])
